@@ -178,7 +178,8 @@ func c17Seq(p Params) func() {
 		})
 		cli := world.NewPeer("json", secure.NewPlugin(9002, key))
 		cs, _, link := world.Connect(cli, srv, world.Proto(proto))
-		kinds := []string{"call", "call_secure", "call_accept", "push", "push_secure"}
+		// *_meta: the marker is followed by further metadata; *_false_meta: the marker is present with the value "false"
+		kinds := []string{"call", "call_secure", "call_accept", "push", "push_secure", "call_secure_meta", "push_secure_meta", "call_false_meta", "push_false_meta"}
 		hist := ""
 		for i := 0; i < depth; i++ {
 			kind := kinds[vsched.Choose(len(kinds), "op")]
@@ -191,8 +192,12 @@ func c17Seq(p Params) func() {
 				settings = append(settings, secure.WithSecureMeta())
 			case "call_accept":
 				settings = append(settings, secure.WithAcceptSecureMeta(true))
+			case "call_secure_meta", "push_secure_meta":
+				settings = append(settings, secure.WithSecureMeta(), erpc.WithAddMeta("X-Request-Id", "abcdef"))
+			case "call_false_meta", "push_false_meta":
+				settings = append(settings, erpc.WithSetMeta(secure.SECURE_META_KEY, "false"), erpc.WithAddMeta("X-Request-Id", "abcdef"))
 			}
-			reqEnc := kind == "call_secure" || kind == "push_secure"
+			reqEnc := strings.Contains(kind, "_secure")
 			a := arg
 			if strings.HasPrefix(kind, "call") {
 				var res string
@@ -202,7 +207,7 @@ func c17Seq(p Params) func() {
 					vsched.Failf("%s #%d: caller got %s %q, want OK %q | %s", kind, i, world.StatStr(st), res, "R"+arg, hist)
 				}
 				s2c := link.B.Written[n2:]
-				repEnc := kind != "call"
+				repEnc := kind == "call_secure" || kind == "call_accept" || kind == "call_secure_meta"
 				if readable := bytes.Contains(s2c, []byte("R"+arg)); repEnc == readable {
 					vsched.Failf("%s #%d: result readable on the wire = %v, reply must be encrypted = %v | %s", kind, i, readable, repEnc, hist)
 				}
